@@ -448,7 +448,9 @@ func TestSamples(t *testing.T) {
 			} else {
 				u.Len = rapid.IntRange(0, 200).Draw(t, "lenu")
 			}
-			if c.LSM >= 2 && ev.Thorough() && rapid.IntRange(0, 20000).Draw(t, "huge") == 0 {
+			// rare (about 1 in 6000 units; decided by a hash of drawn values because rapid's integer
+			// generators favour small values, which would make "== 0" a frequent event)
+			if c.LSM >= 2 && ev.Thorough() && ev.Hash([]uint64{u.Fill, uint64(u.Hdr), uint64(i), uint64(n)})%6000 == 0 {
 				u.Len = 1 << 24
 				if c.LSM == 2 {
 					u.Len = 1<<24 - 2
